@@ -327,7 +327,7 @@ func checkBatch(c batchCase) *vt.Fail {
 			if strings.HasPrefix(f, "--pid=") {
 				pf := strings.TrimPrefix(f, "--pid=")
 				if b, err := os.ReadFile(pf); err == nil {
-					if tskit.Alive(strings.TrimSpace(string(b))) {
+					if tskit.StillAlive(strings.TrimSpace(string(b))) {
 						var pid int
 						fmt.Sscan(string(b), &pid)
 						if pid > 1 {
